@@ -86,7 +86,7 @@ func buildE2(w *World) *e2env {
 	}
 	heights := []uint32{h0}
 	if sp.NextHeight {
-		heights = append(heights, h0+1)
+		heights = append(heights, h0+1, h0+2)
 	}
 	for _, h := range heights {
 		vals := sc.validatorsAt(h)
@@ -103,6 +103,9 @@ func buildE2(w *World) *e2env {
 		views := sp.Views
 		if h != h0 {
 			views = 1
+		}
+		if h == h0+2 && len(peers) > 1 {
+			peers = peers[:1]
 		}
 		amev := sc.AMEV >= 0 && uint32(sc.AMEV) <= h
 		for v := byte(0); int(v) < views; v++ {
